@@ -104,7 +104,7 @@ func (f *Feature) UnmarshalJSON(data []byte) error {
 func (f *Feature) UnmarshalBSON(data []byte) error {
 	// the driver's struct decoder can loop forever on a document whose
 	// element lengths are corrupt, so make sure it is well formed first.
-	if err := bson.Raw(data).Validate(); err != nil {
+	if err := validateBSON(data); err != nil {
 		return err
 	}
 
